@@ -59,6 +59,7 @@ func main() {
 	witn := flag.Int("witnesses", 3, "reachability witnesses to emit")
 	verbose := flag.Bool("v", false, "verbose")
 	slow := flag.String("slowdir", "", "dump slow/unknown queries here")
+	cutgenDir := flag.String("cutgen", "", "write hook-carrying copies of the source files of all cut callees to this directory (for native replays) and exit")
 	tags := flag.String("tags", "", "build tags for loading (e.g. purego selects the pure-Go variants of dependencies)")
 	maxtime := flag.Int("maxtime", 0, "stop exploring after this many seconds (inconclusive)")
 	flag.Parse()
@@ -99,6 +100,10 @@ func main() {
 	fn := hp.Func(*entry)
 	if fn == nil {
 		fatal("no entry function %s in %s", *entry, hp.Pkg.Path())
+	}
+	if *cutgenDir != "" {
+		cutgen(prog, hp, cutSpecs, *cutgenDir)
+		return
 	}
 	sol := NewSolver(*pref, *tmo, *ftmo)
 	sol.CrossAll = *cross
@@ -355,7 +360,7 @@ func (e *Engine) witnesses(k int) []map[string]interface{} {
 				obs = append(obs, fmt.Sprintf("%s=%x", sl.name, bs))
 			}
 		}
-		out = append(out, map[string]interface{}{"model": m, "arrays": arrays, "reach": s.Reach, "obs": obs})
+		out = append(out, map[string]interface{}{"model": m, "arrays": arrays, "reach": s.Reach, "obs": obs, "uf": e.ufTable(s.PC, m)})
 	}
 	return out
 }
